@@ -94,6 +94,8 @@ def run(C, R):
         from common import wrapper_discipline
         R.floor('C11.W wrapper-paths[%s]' % cfg, wrapper_discipline(C, R, cfg, list(CHANNEL_STATES), 'C11.W'), 2)
         # ---------------- R1 monotone
+        from rl import state_layer as _sl11
+        _layer11 = _sl11(F, CG, list(CHANNEL_STATES))
         nw = 0
         for st, flag in CHANNEL_STATES.items():
             F.adt(st)
@@ -102,7 +104,8 @@ def run(C, R):
                 nw += 1
                 rv = s['rv']
                 val = const_of_rvalue(fn, rv)
-                if val == 1 and fn.get('impl_adt') == st:
+                if val == 1 and (fn.get('impl_adt') == st or _layer11.get(fn['path']) == st):
+                    # (the state struct's own method, or a private helper / newtype of the state layer)
                     R.ok('C11.R1', '%s|%s:=true' % (fn['path'], flag))
                 else:
                     R.fail('C11.R1', [fn['path'], flag, 'non-monotone-write'],
